@@ -98,6 +98,9 @@ type FuncGen struct {
 	safety   bool
 	nonEsc   map[ssa.Value]bool
 	localRefs []string // refs of non-escaping local allocations made so far (terms)
+	// localRefClasses: for a local ref, the heap classes in which it can hold data (fields of its struct type,
+	// its cell / element class); absent = any class.  Havoc preserves a local only in those classes.
+	localRefClasses map[string]map[string]bool
 	callOrd  map[string]int
 	retCount int
 	unsupported []string
@@ -568,7 +571,14 @@ func (g *FuncGen) analyzeCFG() {
 	for i, li := range ls {
 		li.ordinal = i + 1
 		if os.Getenv("GOVC_LOOPS") != "" {
-			fmt.Fprintf(os.Stderr, "LOOP %s: loop %d at %s\n", g.fnName, li.ordinal, g.prog.Fset.Position(li.minPos))
+			hp := token.NoPos
+			for _, in := range li.header.Instrs {
+				if in.Pos().IsValid() {
+					hp = in.Pos()
+					break
+				}
+			}
+			fmt.Fprintf(os.Stderr, "LOOP %s: loop %d at %s (header block %d, first positioned instruction at %s)\n", g.fnName, li.ordinal, g.prog.Fset.Position(li.minPos), li.header.Index, g.prog.Fset.Position(hp))
 		}
 		if g.contract != nil {
 			li.spec = g.contract.Loops[li.ordinal]
@@ -967,6 +977,9 @@ func (g *FuncGen) havocForLoop(li *loopInfo) {
 			// the class was not explicitly written; for havoc-all we keep locals that are non-escaping
 			if all && !classes[cl] {
 				for _, r := range g.localRefs {
+					if lc, ok := g.localRefClasses[r]; ok && !lc[cl] {
+						continue
+					}
 					c.assert(fmt.Sprintf("(= (select %s %s) (select %s %s))", n, r, old, r))
 				}
 			}
@@ -1057,6 +1070,19 @@ func (g *FuncGen) loopCalls(li *loopInfo, calleeSuffix string) bool {
 				}
 			} else if p, ok := cc.Value.(*ssa.Parameter); ok {
 				name = "callback " + p.Name()
+			} else if n := g.debugNameOf(cc.Value); n != "" {
+				name = "dynamic call " + n
+			} else if ld, ok := cc.Value.(*ssa.UnOp); ok && ld.Op == token.MUL {
+				// a function-valued struct field: hooks name such calls by the field
+				fa, ok := ld.X.(*ssa.FieldAddr)
+				if !ok {
+					return true
+				}
+				st, ok := derefType(fa.X.Type()).Underlying().(*types.Struct)
+				if !ok {
+					return true
+				}
+				name = "dynamic call " + st.Field(fa.Field).Name()
 			} else {
 				return true
 			}
